@@ -69,6 +69,14 @@ CHECKS["C04"] = (
     "DESIGN.md 6/C04",
 )
 
+CHECKS["C10"] = (
+    "model_checking",
+    "exhaustive enumeration of all lists (length <= 3/4) over a pool of 17 sequences through the real validator; differential oracle: state reached after other sequences vs the initial state",
+    "Every list of pool sequences (12 conformant from different profiles/versions/levels/fragment and numbering styles, 5 non-conformant) up to the length bound is concatenated; the concatenation must be accepted iff all members are, fail with the failing member's own error class, and output exactly the members' own pictures up to that point.",
+    "Pool members come from the independent builder and the real encoder; permissive level value tables.",
+    "DESIGN.md 6/C10",
+)
+
 NOT_YET = "check not built yet in this revision (planned, see DESIGN.md section 6)"
 
 
